@@ -36,13 +36,24 @@ def guarded(fn, seconds=2.0):
         signal.signal(signal.SIGALRM, old)
 
 
+def safe_obs(adapter, w):
+    """Observation through the public API; an exception there is a result the specification does not know."""
+    try:
+        return adapter.obs(w)
+    except (Timeout, Unexpected, tlc.MachineryError):
+        raise
+    except Exception as e:
+        raise Unexpected("observing the state raised %s: %s" % (type(e).__name__, str(e)[:80]))
+
+
 class Graph:
     def __init__(self):
-        self.edges = collections.defaultdict(list)   # (obs, hid, op) -> [(ret, tobs, thid)]
+        self.edges = collections.defaultdict(set)   # (obs, hid, op) -> [(ret, tobs, thid)]
         self.ops_at = collections.defaultdict(dict)  # obs -> {op_canon: op}
         self.init = None
         self.n_edges = 0
         self.states = set()
+        self.sources = set()
 
     def add(self, e):
         so, sh = canon(e["s"]["o"]), canon(e["s"]["h"])
@@ -50,10 +61,11 @@ class Graph:
         op = canon(e["l"]["op"])
         if self.init is None:
             self.init = (so, sh)
-        self.edges[(so, sh, op)].append((canon(e["l"]["ret"]), to, th))
+        self.edges[(so, sh, op)].add((canon(e["l"]["ret"]), to, th))
         self.ops_at[so][op] = e["l"]["op"]
         self.n_edges += 1
         self.states.add((so, sh))
+        self.sources.add((so, sh))
         self.states.add((to, th))
 
 
@@ -89,6 +101,7 @@ def walk(g, adapter, ctx, name, max_nodes=200000, op_timeout=0.5, sig_fn=None, r
     spec_states_hit = set()
     spec_edges_hit = 0
     reported = 0
+    frontier = 0
     closer = getattr(adapter, "close", None)
 
     def run_path(path, op):
@@ -96,9 +109,9 @@ def walk(g, adapter, ctx, name, max_nodes=200000, op_timeout=0.5, sig_fn=None, r
         try:
             for p in path:
                 adapter.apply(w, p)
-            pre = canon(adapter.obs(w))
+            pre = canon(safe_obs(adapter, w))
             ret = adapter.apply(w, op) if op is not None else None
-            post = canon(adapter.obs(w))
+            post = canon(safe_obs(adapter, w))
             return pre, canon(ret), post
         finally:
             if closer:
@@ -110,6 +123,11 @@ def walk(g, adapter, ctx, name, max_nodes=200000, op_timeout=0.5, sig_fn=None, r
         for h in hids:
             spec_states_hit.add((obs, h))
         path = paths[node]
+        if any((obs, h) not in g.sources for h in hids):
+            # a candidate lies beyond the bound of the exhaustive model (TLC did not expand it): nothing can be
+            # judged from here without risking a false alarm
+            frontier += 1
+            continue
         for opc in sorted(g.ops_at[obs]):
             # enabled in at least one candidate?
             if not any((obs, h, opc) in g.edges for h in hids):
@@ -154,7 +172,7 @@ def walk(g, adapter, ctx, name, max_nodes=200000, op_timeout=0.5, sig_fn=None, r
                 queue.append(nxt)
     stats = {"spec": name, "spec_states": len(g.states), "spec_edges": g.n_edges, "code_nodes": len(paths),
              "pairs_checked": checked, "spec_states_reached_by_code": len(spec_states_hit),
-             "spec_edges_taken_by_code": spec_edges_hit}
+             "spec_edges_taken_by_code": spec_edges_hit, "frontier_nodes_not_expanded": frontier}
     ctx.extra.setdefault("walks", []).append(stats)
     ctx.traces += checked
     if len(ctx.samples) < 4 and paths:
